@@ -1,6 +1,278 @@
-From Coq Require Import List QArith.
+(* C19 -- Simulation statistics equal the statistics of the recorded measures.
+   Only statements; every proof is [exact] of a lemma of Stats/WelfordProofs.v,
+   Stats/BucketsProofs.v or Stats/CheckProofs.v.
+   Model: Stats/Welford.v (Value: Store / Collect / AverageValue over exact
+   rationals) and Stats/Buckets.v (Stats, BucketStats, Monitor.update,
+   AverageStats as a state machine).  Flags: (fix_f21, fix_f22) of [collect],
+   record [fixes] of [mstep]; [pinned] = the code as it is, [all_fixed] = with
+   the proposed repairs F21, F22, C19-N1, C19-N2. *)
+From Coq Require Import List QArith ZArith String Permutation.
 Import ListNotations.
-From Onet Require Import Stats.Welford.
-Example c19_placeholder : qsum [1; 2] == 3.
-Proof. reflexivity. Qed.
-Print Assumptions c19_placeholder.
+From Onet Require Import Base.Corr Stats.Welford Stats.WelfordProofs Stats.Buckets
+  Stats.BucketsProofs Corr.C19 Stats.CheckProofs.
+Local Open Scope string_scope.
+Local Open Scope list_scope.
+
+(* ---- what "the statistics of the recorded values" are ---------------------- *)
+
+(* [exact l]: count, a least and a greatest member, the sum, sum/n, and the
+   sample variance sum (x - mean)^2 / (n-1) (square of the reported deviation);
+   one value has an undefined deviation *)
+Theorem c19_exact_is_the_statistics : forall x r, let l := x :: r in
+  s_n (exact l) = List.length l /\
+  (In (s_min (exact l)) l /\ forall y, In y l -> s_min (exact l) <= y) /\
+  (In (s_max (exact l)) l /\ forall y, In y l -> y <= s_max (exact l)) /\
+  s_sum (exact l) == qsum l /\
+  s_avg (exact l) == qsum l / qofnat (List.length l) /\
+  match r with
+  | [] => s_dev (exact l) = DNaN
+  | _ => exists v, s_dev (exact l) = DSq v /\
+                   v == qss_to (qsum l / qofnat (List.length l)) l / qofnat (List.length l - 1)
+  end.
+Proof. exact exact_spec. Qed.
+Print Assumptions c19_exact_is_the_statistics.
+
+(* ---- the streaming recurrence computes them --------------------------------- *)
+
+(* With F21+F22 repaired: whatever the Value went through before (any earlier
+   read-outs, any accumulator contents), Collect leaves exactly the statistics
+   of the stored values -- for every list of rationals. *)
+Theorem c19_welford : forall t,
+  snap_eq (snapshot (collect true true t)) (exact (vstore t)).
+Proof. exact collect_exact. Qed.
+Print Assumptions c19_welford.
+
+(* The pinned code, first read-out of a fresh Value: count, min, sum, mean and
+   deviation are exact for every list; the maximum is max(0, values). *)
+Theorem c19_pinned_first_readout : forall x xs,
+  let t := collect false false (with_store value0 (x :: xs)) in
+  let e := exact (x :: xs) in
+  vn t = s_n e /\ vmin t = s_min e /\ vsum t == s_sum e /\ newM t == s_avg e /\
+  dev_eq (vdev t) (s_dev e) /\
+  vmax t = qmaxl 0 (x :: xs).
+Proof. exact collect_pinned_first. Qed.
+Print Assumptions c19_pinned_first_readout.
+
+(* ... so outside defect F22 (some value is non-negative) the maximum is right *)
+Theorem c19_pinned_first_max : forall x xs,
+  (exists y, In y (x :: xs) /\ 0 <= y) ->
+  vmax (collect false false (with_store value0 (x :: xs))) == s_max (exact (x :: xs)).
+Proof. exact collect_pinned_first_max. Qed.
+Print Assumptions c19_pinned_first_max.
+
+Example c19_pinned_first_max_satisfiable : exists y, In y [-3; 0; -1] /\ 0 <= y.
+Proof. exists 0. split; [right; left; reflexivity|apply Qle_refl]. Qed.
+Print Assumptions c19_pinned_first_max_satisfiable.
+
+(* F22 *)
+Theorem c19_negative_max_refuted :
+  exists l, l = [-5; -2] /\ vmax (collect false false (with_store value0 l)) == 0 /\
+            s_max (exact l) == -2 /\
+            ~ snap_eq (snapshot (collect false false (with_store value0 l))) (exact l).
+Proof. exact negative_max_refuted. Qed.
+Print Assumptions c19_negative_max_refuted.
+
+(* ---- read-outs ------------------------------------------------------------------ *)
+
+(* repaired Collect: any number of earlier read-outs is one read-out *)
+Theorem c19_collect_idempotent : forall t k,
+  Nat.iter (S k) (collect true true) t = collect true true t.
+Proof. exact collect_fixed_iter. Qed.
+Print Assumptions c19_collect_idempotent.
+
+(* Repaired state machine (result sets, buckets, averaging): what ANY operation
+   reports after a history equals what it reports after the same history with
+   every read-out operation (Collect, String, WriteHeader, WriteValues, bucket
+   Get -- any number, any position, any result set) removed. *)
+Theorem c19_readouts_idempotent : forall st ops fin,
+  final_out all_fixed st ops fin = final_out all_fixed st (strip_readouts ops) fin.
+Proof. exact readouts_irrelevant. Qed.
+Print Assumptions c19_readouts_idempotent.
+
+(* and in every reachable state a write reports exactly the statistics of the
+   values stored for every measure of that result set, and every measure with
+   stored values is reported *)
+Theorem c19_values_report_exact : forall fx m i s,
+  fx21 fx = true -> fx22 fx = true -> wf m -> nth_error (objs m) i = Some s ->
+  exists m' rows, mstep fx m (OValues i) = (m', OutValues (map snd (statics s)) rows) /\
+    map fst rows = map fst (vals s) /\
+    (forall k sn, In (k, sn) rows -> snap_eq sn (exact (store_at m i k))) /\
+    (forall k, store_at m i k <> [] -> exists sn, In (k, sn) rows) /\
+    (forall k, store_at m' i k = store_at m i k).
+Proof. exact values_report_exact. Qed.
+Print Assumptions c19_values_report_exact.
+
+(* F21: the pinned code counts stored values once per read-out *)
+Theorem c19_double_collect_refuted :
+  exists t, t = with_store value0 [1; 2; 3; 6] /\
+    vn (collect false false t) = 4%nat /\
+    vn (collect false false (collect false false (collect false false t))) = 12%nat /\
+    ~ snap_eq (snapshot (collect false false (collect false false t))) (exact (vstore t)).
+Proof. exact double_collect_refuted. Qed.
+Print Assumptions c19_double_collect_refuted.
+
+Theorem c19_single_value_reread_refuted :
+  vdev (collect false false (with_store value0 [4])) = DNaN /\
+  vdev (collect false false (collect false false (with_store value0 [4]))) = DSq 0.
+Proof. exact single_value_reread_refuted. Qed.
+Print Assumptions c19_single_value_reread_refuted.
+
+(* F21 on the state machine: the driver's log line (String) before the write *)
+Theorem c19_readouts_idempotent_refuted :
+  exists st ops fin,
+    ops = [OMeasure "round" 1 (-1); OMeasure "round" 2 (-1); OMeasure "round" 3 (-1);
+           OMeasure "round" 6 (-1); OString 0] /\ fin = OValues 0 /\
+    final_out pinned st ops fin <> final_out pinned st (strip_readouts ops) fin.
+Proof. exact readouts_irrelevant_refuted. Qed.
+Print Assumptions c19_readouts_idempotent_refuted.
+
+(* exact description of the defect: after k+1 read-outs the pinned accumulators
+   hold the statistics of the stored list repeated k+1 times (the sum alone is
+   reset) *)
+Theorem c19_pinned_repeated_readouts : forall x xs k,
+  let l := x :: xs in
+  let t := Nat.iter (S k) (collect false false) (with_store value0 l) in
+  vn t = (S k * List.length l)%nat /\
+  newM t == qmean (reps (S k) l) /\
+  newS t == qss (reps (S k) l) /\
+  vsum t == qsum l /\
+  vstore t = l.
+Proof. exact collect_pinned_repeated. Qed.
+Print Assumptions c19_pinned_repeated_readouts.
+
+(* ---- arrival order, partition over connections ------------------------------------ *)
+
+Theorem c19_statistics_of_multiset : forall a b, Permutation a b -> snap_eq (exact a) (exact b).
+Proof. exact exact_perm. Qed.
+Print Assumptions c19_statistics_of_multiset.
+
+(* any interleaving of the per-connection streams, compared with any other
+   arrangement of the same values *)
+Theorem c19_order_partition_invariant : forall conns arrival other t t',
+  interleaving conns arrival -> Permutation other (List.concat conns) ->
+  vstore t = arrival -> vstore t' = other ->
+  snap_eq (snapshot (collect true true t)) (snapshot (collect true true t')).
+Proof. exact order_partition_invariant. Qed.
+Print Assumptions c19_order_partition_invariant.
+
+Example c19_order_partition_satisfiable : interleaving [[1; 2]; [3]] [1; 3; 2].
+Proof. exact interleaving_example. Qed.
+Print Assumptions c19_order_partition_satisfiable.
+
+(* the pinned code too, on its first read-out *)
+Theorem c19_order_invariant_pinned_first : forall a b, Permutation a b ->
+  snap_eq (snapshot (collect false false (with_store value0 a)))
+          (snapshot (collect false false (with_store value0 b))).
+Proof. exact order_invariant_pinned_first. Qed.
+Print Assumptions c19_order_invariant_pinned_first.
+
+(* ---- averaging ------------------------------------------------------------------------ *)
+
+Theorem c19_average_is_union : forall vs,
+  snap_eq (snapshot (collect true true (average_value vs)))
+          (exact (List.concat (map vstore vs))).
+Proof. exact average_is_union. Qed.
+Print Assumptions c19_average_is_union.
+
+Theorem c19_average_ignores_readouts : forall f21 f22 vs,
+  average_value (map (collect f21 f22) vs) = average_value vs.
+Proof. exact average_ignores_readouts. Qed.
+Print Assumptions c19_average_ignores_readouts.
+
+(* AverageStats over result sets that all carry the measures of the first one
+   (no set locked): no failure, and the new result set holds per measure the
+   averaged Value of exactly the sources' Values for that measure *)
+Theorem c19_average_stats_union : forall fx m i0 srcs s0,
+  dead m = None -> (forall s, In s (objs m) -> locked s = false) ->
+  nth_error (objs m) i0 = Some s0 ->
+  (forall i, In i srcs -> (i < List.length (objs m))%nat) ->
+  (forall k i, In k (map fst (vals s0)) -> In i (i0 :: srcs) ->
+     exists s, nth_error (objs m) i = Some s /\ vals_find (vals s) k <> None) ->
+  mstep fx m (OAverage (i0 :: srcs)) =
+    (with_objs m (objs m ++
+       [mkStats (statics s0)
+          (map (fun k => (k, average_value (found_values (objs m) (i0 :: srcs) k))) (map fst (vals s0)))
+          false]), OutNone).
+Proof. exact average_stats_union. Qed.
+Print Assumptions c19_average_stats_union.
+
+Example c19_average_example :
+  let ops := [ONew; ODirect 1 "a" 1; ODirect 1 "a" 2; OValues 1; ONew; ODirect 2 "a" 6;
+              OAverage [1%nat; 2%nat]; OValues 3] in
+  final_out all_fixed [] ops (OValues 3) = OutValues [] [("a", exact [1; 2; 6])].
+Proof. exact average_stats_union_example. Qed.
+Print Assumptions c19_average_example.
+
+(* ---- buckets ----------------------------------------------------------------------------- *)
+
+Theorem c19_rules_match_spec : forall rr h, rules_match rr h = true <-> names_host rr h.
+Proof. exact rules_match_spec. Qed.
+Print Assumptions c19_rules_match_spec.
+
+(* After any set-up with well-formed rules and pairwise different indices, and
+   any list of measures: the global result set holds every measure, bucket j
+   exactly those whose host its ranges name -- in arrival order, whatever the
+   fix flags. *)
+Theorem c19_buckets_exact : forall fx st bs ms,
+  NoDup (map fst bs) ->
+  (forall b, In b bs -> snd (parse_rules (snd b)) = true) ->
+  let m := fst (mrun fx (init_state st) (setups bs ++ mops ms)) in
+  wf m /\
+  (forall k, store_at m 0 k = recorded k (fun _ => true) ms) /\
+  (forall j idx rules, nth_error bs j = Some (idx, rules) -> forall k,
+     store_at m (S j) k = recorded k (rules_match (fst (parse_rules rules))) ms).
+Proof. exact buckets_exact. Qed.
+Print Assumptions c19_buckets_exact.
+
+Example c19_buckets_exact_satisfiable :
+  let bs := [(0, ["10:20"]); (1, ["15:20"]); (2, ["5:10"; "20:25"])]%Z in
+  NoDup (map fst bs) /\ (forall b, In b bs -> snd (parse_rules (snd b)) = true).
+Proof. exact buckets_exact_satisfiable. Qed.
+Print Assumptions c19_buckets_exact_satisfiable.
+
+(* ---- robustness: found while stating the invariants -------------------------------------- *)
+
+(* with the four repairs no sequence of operations crashes or blocks *)
+Theorem c19_fixed_never_fails : forall st ops,
+  dead (fst (mrun all_fixed (init_state st) ops)) = None.
+Proof. exact fixed_never_fails. Qed.
+Print Assumptions c19_fixed_never_fails.
+
+(* C19-N1: malformed bucket specification + a measure from a host of one of its
+   well-formed ranges: nil dereference in BucketStats.Update *)
+Theorem c19_malformed_rule_crash_refuted :
+  exists ops, ops = [OSetBucket 0 ["5:7"; ":3"]; OMeasure "a" 1 6] /\
+    dead (fst (mrun pinned (init_state []) ops)) = Some FCrash /\
+    dead (fst (mrun (mkFix false false true false) (init_state []) ops)) = None.
+Proof. exact malformed_rule_crash_witness. Qed.
+Print Assumptions c19_malformed_rule_crash_refuted.
+
+(* C19-N2: AverageStats leaves a source without the measure locked *)
+Theorem c19_average_lock_leak_refuted :
+  exists ops, ops = [ONew; ODirect 1 "a" 1; ONew; ODirect 2 "b" 2; OAverage [1%nat; 2%nat]; OValues 2] /\
+    dead (fst (mrun pinned (init_state []) ops)) = Some FDeadlock /\
+    dead (fst (mrun (mkFix false false false true) (init_state []) ops)) = None.
+Proof. exact average_lock_leak_witness. Qed.
+Print Assumptions c19_average_lock_leak_refuted.
+
+(* ---- the checker used on observations ---------------------------------------------------- *)
+
+(* no clause for a reported measure iff count, min, max are exactly the expected
+   ones and sum / mean / deviation^2 lie within the stated relative tolerances *)
+Theorem c19_checker_meaning : forall e o,
+  let mag := mag_of e in
+  let nq := qofnat (Nat.max 1 (s_n e)) in
+  snap_diff e o = [] <->
+  (s_n e = o_n o /\
+   reported_num (o_min o) (s_min e) 0 /\
+   reported_num (o_max o) (s_max e) 0 /\
+   reported_num (o_sum o) (s_sum e) (eps * mag * nq) /\
+   reported_num (o_avg o) (s_avg e) (eps * mag) /\
+   reported_dev (o_dev o) (s_dev e) (4 * eps * mag * mag)).
+Proof. exact snap_diff_nil_iff. Qed.
+Print Assumptions c19_checker_meaning.
+
+Theorem c19_checker_exact_clauses : forall bits e,
+  reported_num bits e 0 <-> exists q, decode bits = FNum q /\ q == e.
+Proof. exact reported_num_exact. Qed.
+Print Assumptions c19_checker_exact_clauses.
